@@ -29,6 +29,34 @@ HAS = ["h0", "h1", "h2", ""]
 SLOTS = ["A", "B", "C"]
 
 
+INVARIANT_EVALS = [0]
+
+
+def indexes_consistent(self):
+    """class invariant attached with icontract (DESIGN 2.B): the three indexes hold the same remotes,
+    each under its current key, and no key is the local device's"""
+    INVARIANT_EVALS[0] += 1
+    rs = list(self.remotes.values())
+    if not (len(rs) == len(self.nameRemotes) == len(self.haRemotes)):
+        return False
+    for r in rs:
+        if self.remotes.get(r.uid) is not r or self.nameRemotes.get(r.name) is not r or \
+                self.haRemotes.get(r.ha) is not r:
+            return False
+    loc = self.local
+    return loc.uid not in self.remotes and loc.name not in self.nameRemotes and loc.ha not in self.haRemotes
+
+
+def attach_contract(stacking):
+    """re-bind RemoteStack's public methods with the invariant (no source edit); idempotent"""
+    import icontract
+    cls = stacking.RemoteStack
+    if not getattr(cls, "_vf_contract", False):
+        icontract.invariant(indexes_consistent)(cls)
+        cls._vf_contract = True
+    return icontract.ViolationError
+
+
 class MDev(object):
     def __init__(self, token, uid, name, ha):
         self.token, self.uid, self.name, self.ha = token, uid, name, ha
@@ -45,6 +73,7 @@ class Run(object):
         self.mslots = {}           # slot -> MDev
         self.idx = {"uid": {}, "name": {}, "ha": {}}     # key -> MDev (insertion ordered)
         self.local = (1, "local", "h0")
+        self.broken = None         # text of an icontract ViolationError raised by the real stack
 
     def member(self, d):
         return d is not None and self.idx["uid"].get(d.uid) is d
@@ -103,6 +132,16 @@ class Run(object):
         raise ValueError(op)
 
     def real(self, op):
+        verr = self.spec.violation_error
+        if verr is None:
+            return self._real(op)
+        try:
+            return self._real(op)
+        except verr as e:
+            self.broken = str(e)[:300]
+            raise
+
+    def _real(self, op):
         n = op[0]
         st = self.stack
         if n == "new":
@@ -146,7 +185,7 @@ class Run(object):
                 "alias": st.remotes is st.uidRemotes,
                 "devices": [[s, self.tok[id(d)], d.uid, d.name, d.ha] for s, d in sorted(self.slots.items())],
                 "member_stack": all(v.stack is st for v in st.remotes.values()),
-                "local": [st.local.uid, st.local.name, st.local.ha]}
+                "local": [st.local.uid, st.local.name, st.local.ha], "class_invariant_broken": self.broken}
 
     def model_state(self):
         def index(m):
@@ -154,7 +193,7 @@ class Run(object):
         return {"uid": index(self.idx["uid"]), "name": index(self.idx["name"]), "ha": index(self.idx["ha"]),
                 "alias": True,
                 "devices": [[s, d.token, d.uid, d.name, d.ha] for s, d in sorted(self.mslots.items())],
-                "member_stack": True, "local": list(self.local)}
+                "member_stack": True, "local": list(self.local), "class_invariant_broken": None}
 
     def resync(self):
         """after an automatic uid: adopt it, but it must collide with nothing"""
@@ -174,9 +213,15 @@ class Spec(object):
     name = "remotestack"
     tag = "rs"
 
-    def __init__(self):
+    def __init__(self, contract=False):
         from ioflo.aio.proto import stacking, devicing
         self.stacking, self.devicing = stacking, devicing
+        self.violation_error = attach_contract(stacking) if contract else None
+
+    def key(self, div):
+        if "class_invariant_broken" in str(div.get("observed")):
+            return "remotestack/%s/class-invariant" % div["op"][0]
+        return None
 
     def new(self):
         return Run(self)
@@ -232,9 +277,16 @@ class Spec(object):
 
 
 def worker(ctx, job):
-    spec = Spec()
+    spec = Spec(contract=job["mode"] == "contract")
     rep = hist.Reporter(ctx)
-    if job["mode"] == "exh":
+    if job["mode"] == "contract":
+        # same histories, RemoteStack additionally carrying the icontract class invariant
+        rng = ctx.subrng("c37-contract", job["chunk"])
+        hist.random_runs(ctx, rep, spec, job["nseq"], 40, rng)
+        ctx.hit("contract_sequences", job["nseq"])
+        ctx.hit("class_invariant_evaluations", INVARIANT_EVALS[0])
+        ctx.oracle_evaluations += INVARIANT_EVALS[0]
+    elif job["mode"] == "exh":
         al = spec.core_alphabet() if job["alphabet"] == "core" else spec.full_alphabet()
         n = hist.exhaustive(ctx, rep, spec, al, job["maxlen"], firsts=job["firsts"])
         ctx.hit("exhaustive_sequences", n)
@@ -265,6 +317,8 @@ def run(ctx):
         jobs.append({"mode": "exh", "alphabet": "full", "maxlen": 2, "firsts": firsts})
     for chunk in range(ctx.pick(6, 16)):
         jobs.append({"mode": "rnd", "chunk": chunk, "nseq": ctx.pick(1500, 5000)})
+    for chunk in range(ctx.pick(2, 6)):
+        jobs.append({"mode": "contract", "chunk": chunk, "nseq": ctx.pick(300, 1500)})
     ctx.extra["alphabet_sizes"] = {"core": nc, "full": nf}
     ctx.exhaustive = False
     ctx.extra["exhaustive_part"] = "all sequences of length <= %d over the core alphabet and <= 2 over the full " \
@@ -275,4 +329,5 @@ def run(ctx):
     for h in ("add_changed", "add_rejected", "move_changed", "move_rejected", "rename_changed", "rename_rejected",
               "reha_changed", "reha_rejected", "remove_changed", "remove_rejected"):
         ctx.floor(h, ctx.pick(100, 1000))
+    ctx.floor("class_invariant_evaluations", ctx.pick(5000, 60000))     # zero => the attachment got lost
     ctx.floor("distinct_nontrivial", ctx.pick(5000, 40000))
